@@ -32,6 +32,7 @@ Inductive gclass :=
 | GShapeMisfit             (* operands whose shapes do not fit the operation *)
 | GAliasedStorage          (* data is physically moved under other live tensors that view the same storage *)
 | GLateRefusal             (* Reshape refuses only in sanity(), after the new shape has been installed *)
+| GApplyDest               (* Apply/Map with a reuse or incr destination maps the DESTINATION's contents *)
 | GOther.
 
 Definition slice_count_zero (s : slice) (dim : Z) : bool :=
